@@ -510,6 +510,13 @@ impl CompositionGraph {
         package: wac_types::Package,
     ) -> Result<PackageId, RegisterPackageError> {
         let key = PackageKey::new(&package);
+        #[cfg(wac_verif)]
+        if verif::enabled() {
+            verif::emit(format!(
+                "{{\"a\":\"register_package\",\"ph\":\"call\",\"key\":{}}}",
+                verif::js(&key.to_string())
+            ));
+        }
         if self.package_map.contains_key(&key) {
             return Err(RegisterPackageError::PackageAlreadyRegistered { key });
         }
@@ -523,6 +530,13 @@ impl CompositionGraph {
         let id = self.alloc_package(package);
         let prev = self.package_map.insert(key, id);
         assert!(prev.is_none());
+        #[cfg(wac_verif)]
+        if verif::enabled() {
+            verif::emit(format!(
+                "{{\"a\":\"register_package\",\"ph\":\"ok\",\"pkg\":[{},{}]}}",
+                id.index, id.generation
+            ));
+        }
         Ok(id)
     }
 
@@ -534,6 +548,13 @@ impl CompositionGraph {
     ///
     /// Panics if the given package identifier is invalid.
     pub fn unregister_package(&mut self, package: PackageId) {
+        #[cfg(wac_verif)]
+        if verif::enabled() {
+            verif::emit(format!(
+                "{{\"a\":\"unregister_package\",\"ph\":\"call\",\"pkg\":[{},{}]}}",
+                package.index, package.generation
+            ));
+        }
         assert_eq!(
             self.packages
                 .get(package.index)
@@ -605,6 +626,10 @@ impl CompositionGraph {
         name: impl Into<String>,
         ty: Type,
     ) -> Result<NodeId, DefineTypeError> {
+        #[cfg(wac_verif)]
+        if verif::enabled() {
+            verif::emit("{\"a\":\"define_type\",\"ph\":\"call\"}".to_string());
+        }
         assert!(
             self.types.contains(ty),
             "type not contained in types collection"
@@ -686,6 +711,14 @@ impl CompositionGraph {
             })?;
         }
 
+        #[cfg(wac_verif)]
+        if verif::enabled() {
+            verif::emit(format!(
+                "{{\"a\":\"define_type\",\"ph\":\"ok\",\"name\":{},\"node\":{}}}",
+                verif::js(&name),
+                index.index()
+            ));
+        }
         self.defined.insert(ty, index);
         let prev = self.exports.insert(name, index);
         assert!(prev.is_none());
@@ -712,6 +745,13 @@ impl CompositionGraph {
         );
 
         let name = name.into();
+        #[cfg(wac_verif)]
+        if verif::enabled() {
+            verif::emit(format!(
+                "{{\"a\":\"import\",\"ph\":\"call\",\"name\":{}}}",
+                verif::js(&name)
+            ));
+        }
         if let Some(existing) = self.imports.get(&name) {
             return Err(ImportError::ImportAlreadyExists {
                 name,
@@ -737,6 +777,13 @@ impl CompositionGraph {
             "adding import `{name}` to the graph as node index {index}",
             index = index.index()
         );
+        #[cfg(wac_verif)]
+        if verif::enabled() {
+            verif::emit(format!(
+                "{{\"a\":\"import\",\"ph\":\"ok\",\"node\":{}}}",
+                index.index()
+            ));
+        }
         let prev = self.imports.insert(name, index);
         assert!(prev.is_none());
         Ok(NodeId(index))
@@ -779,6 +826,15 @@ impl CompositionGraph {
             key = self[package].key(),
             index = index.index()
         );
+        #[cfg(wac_verif)]
+        if verif::enabled() {
+            verif::emit(format!(
+                "{{\"a\":\"instantiate\",\"ph\":\"ok\",\"pkg\":[{},{}],\"node\":{}}}",
+                package.index,
+                package.generation,
+                index.index()
+            ));
+        }
         NodeId(index)
     }
 
@@ -799,6 +855,14 @@ impl CompositionGraph {
         instance: NodeId,
         export: &str,
     ) -> Result<NodeId, AliasError> {
+        #[cfg(wac_verif)]
+        if verif::enabled() {
+            verif::emit(format!(
+                "{{\"a\":\"alias\",\"ph\":\"call\",\"src\":{},\"export\":{}}}",
+                instance.0.index(),
+                verif::js(export)
+            ));
+        }
         let instance_node = self.graph.node_weight(instance.0).expect("invalid node id");
 
         // Ensure the source is an instance
@@ -826,6 +890,13 @@ impl CompositionGraph {
             assert_eq!(e.source(), instance.0);
             if let Edge::Alias(i) = e.weight() {
                 if *i == index {
+                    #[cfg(wac_verif)]
+                    if verif::enabled() {
+                        verif::emit(format!(
+                            "{{\"a\":\"alias\",\"ph\":\"ok\",\"node\":{},\"existing\":true}}",
+                            e.target().index()
+                        ));
+                    }
                     return Ok(NodeId(e.target()));
                 }
             }
@@ -838,6 +909,13 @@ impl CompositionGraph {
             "adding alias for export `{export}` to the graph as node index {index}",
             index = node_index.index()
         );
+        #[cfg(wac_verif)]
+        if verif::enabled() {
+            verif::emit(format!(
+                "{{\"a\":\"alias\",\"ph\":\"ok\",\"node\":{},\"existing\":false}}",
+                node_index.index()
+            ));
+        }
         self.graph
             .add_edge(instance.0, node_index, Edge::Alias(index));
         Ok(NodeId(node_index))
@@ -904,6 +982,13 @@ impl CompositionGraph {
     ///
     /// This method panics if the provided node id is invalid.
     pub fn set_node_name(&mut self, node: NodeId, name: impl Into<String>) {
+        #[cfg(wac_verif)]
+        if verif::enabled() {
+            verif::emit(format!(
+                "{{\"a\":\"set_node_name\",\"ph\":\"call\",\"node\":{}}}",
+                node.0.index()
+            ));
+        }
         let node = &mut self.graph[node.0];
         node.name = Some(name.into());
     }
@@ -917,6 +1002,14 @@ impl CompositionGraph {
     /// This method panics if the provided node id is invalid.
     pub fn export(&mut self, node: NodeId, name: impl Into<String>) -> Result<(), ExportError> {
         let name = name.into();
+        #[cfg(wac_verif)]
+        if verif::enabled() {
+            verif::emit(format!(
+                "{{\"a\":\"export\",\"ph\":\"call\",\"node\":{},\"name\":{}}}",
+                node.0.index(),
+                verif::js(&name)
+            ));
+        }
         if let Some(existing) = self.exports.get(&name) {
             return Err(ExportError::ExportAlreadyExists {
                 name,
@@ -949,6 +1042,10 @@ impl CompositionGraph {
         };
 
         log::debug!("exporting node {index} as `{name}`", index = node.0.index());
+        #[cfg(wac_verif)]
+        if verif::enabled() {
+            verif::emit("{\"a\":\"export\",\"ph\":\"ok\"}".to_string());
+        }
         self.graph[node.0].export = Some(name.clone());
         let prev = self.exports.insert(name, node.0);
         assert!(prev.is_none());
@@ -971,11 +1068,22 @@ impl CompositionGraph {
     ///
     /// This method panics if the provided node id is invalid.
     pub fn unexport(&mut self, node: NodeId) -> Result<(), UnexportError> {
+        #[cfg(wac_verif)]
+        if verif::enabled() {
+            verif::emit(format!(
+                "{{\"a\":\"unexport\",\"ph\":\"call\",\"node\":{}}}",
+                node.0.index()
+            ));
+        }
         let node = &mut self.graph[node.0];
         if let NodeKind::Definition = node.kind {
             return Err(UnexportError::MustExportDefinition);
         }
 
+        #[cfg(wac_verif)]
+        if verif::enabled() {
+            verif::emit("{\"a\":\"unexport\",\"ph\":\"ok\"}".to_string());
+        }
         if let Some(name) = node.export.take() {
             log::debug!("unmarked node for export as `{name}`");
             let removed = self.exports.swap_remove(&name);
@@ -998,6 +1106,13 @@ impl CompositionGraph {
     ///
     /// This method panics if the provided node id is invalid.
     pub fn remove_node(&mut self, node: NodeId) {
+        #[cfg(wac_verif)]
+        if verif::enabled() {
+            verif::emit(format!(
+                "{{\"a\":\"remove_node\",\"ph\":\"call\",\"node\":{}}}",
+                node.0.index()
+            ));
+        }
         // Recursively remove any dependent nodes
         for node in self
             .graph
@@ -1153,9 +1268,22 @@ impl CompositionGraph {
             Ok(())
         }
 
+        #[cfg(wac_verif)]
+        if verif::enabled() {
+            verif::emit(format!(
+                "{{\"a\":\"set_arg\",\"ph\":\"call\",\"inst\":{},\"name\":{},\"src\":{}}}",
+                instantiation.0.index(),
+                verif::js(argument_name),
+                argument.0.index()
+            ));
+        }
         // Temporarily take ownership of the cache to avoid borrowing issues
         let mut cache = std::mem::take(&mut self.type_check_cache);
         let result = add_edge(self, argument, instantiation, argument_name, &mut cache);
+        #[cfg(wac_verif)]
+        if verif::enabled() && result.is_ok() {
+            verif::emit("{\"a\":\"set_arg\",\"ph\":\"ok\"}".to_string());
+        }
         self.type_check_cache = cache;
         result
     }
@@ -1180,6 +1308,15 @@ impl CompositionGraph {
         argument_name: &str,
         argument: NodeId,
     ) -> Result<(), InstantiationArgumentError> {
+        #[cfg(wac_verif)]
+        if verif::enabled() {
+            verif::emit(format!(
+                "{{\"a\":\"unset_arg\",\"ph\":\"call\",\"inst\":{},\"name\":{},\"src\":{}}}",
+                instantiation.0.index(),
+                verif::js(argument_name),
+                argument.0.index()
+            ));
+        }
         // Ensure the target is an instantiation node
         let instantiation_node = &self.graph[instantiation.0];
         if !matches!(instantiation_node.kind, NodeKind::Instantiation(_)) {
@@ -1203,6 +1340,10 @@ impl CompositionGraph {
             },
         )?;
 
+        #[cfg(wac_verif)]
+        if verif::enabled() {
+            verif::emit("{\"a\":\"unset_arg\",\"ph\":\"ok\"}".to_string());
+        }
         // Finally remove the argument edge if a connection exists
         let mut edge = None;
         for e in self.graph.edges_connecting(argument.0, instantiation.0) {
@@ -1231,6 +1372,13 @@ impl CompositionGraph {
     ///
     /// An error will be returned if the graph contains a dependency cycle.
     pub fn encode(&self, options: EncodeOptions) -> Result<Vec<u8>, EncodeError> {
+        #[cfg(wac_verif)]
+        if verif::enabled() {
+            verif::emit(format!(
+                "{{\"a\":\"encode\",\"ph\":\"call\",\"define_components\":{},\"validate\":{}}}",
+                options.define_components, options.validate
+            ));
+        }
         let bytes = CompositionGraphEncoder::new(self).encode(options)?;
 
         if options.validate {
@@ -1239,6 +1387,13 @@ impl CompositionGraph {
                 .map_err(|e| EncodeError::ValidationFailure { source: e })?;
         }
 
+        #[cfg(wac_verif)]
+        if verif::enabled() {
+            verif::emit(format!(
+                "{{\"a\":\"encode\",\"ph\":\"ok\",\"len\":{}}}",
+                bytes.len()
+            ));
+        }
         Ok(bytes)
     }
 
@@ -1935,6 +2090,10 @@ impl<'a> CompositionGraphEncoder<'a> {
         }
     }
 }
+
+/// Verification hooks (only with `--cfg wac_verif`).
+#[cfg(wac_verif)]
+pub mod verif;
 
 #[cfg(test)]
 mod test {
